@@ -67,6 +67,30 @@ def stepSub (nvT slotsT pT varsT hintsT stateT subT : String) : String :=
     let want := vars.map (fun v => subAt s state v p)
     s!"{showBits sub} {if decide (sub.map some = want) then "eq" else "ne"}"
 
+/-- `recycle <nvars> <slots> <route> <vars|*> <p> <hints|->`: args are prepared at `p` (route `A`:
+`get_empty_args(All)` + `fill_args_at_p`; `H`: `get_empty_args(Varlist(vars))` + `fill_args_at_p_with_hint`; `E`:
+nothing, the empty args of `vars` / `*`), then handed back through `get_empty_args(SubvarAccess::Args(·))` and
+`fill_args_at_p(p, ·)` once more; the answer is the cursor after that -/
+def stepRecycle (nvT slotsT route varsT pT hintsT : String) : String :=
+  let s := parseSlots slotsT
+  let nv := parseNat nvT
+  let c := canon nv none s
+  let p := parseNat pT
+  let vars := if varsT == "*" then List.range nv else parseNats varsT
+  let empty := if varsT == "*" then c.getEmptyArgsAll else c.getEmptyArgsVarlist vars
+  let a1 : Option Cursor :=
+    if route == "A" then some (c.fillArgsAtP p empty)
+    else if route == "H" then c.fillArgsWithHint p empty vars (parseHints hintsT)
+    else some empty
+  match a1 with
+  | none => "panic - 0 NA"
+  | some a1 =>
+    let a := c.fillArgsAtP p (c.getEmptyArgsFromArgs a1)
+    let eqScan := decide (a.lastP = prevOcc (occAt s) p) &&
+      decide (a.lastVars = vars.map (fun v => (prevRel s v p).map (·.p))) &&
+      decide (a.lastRels = vars.map (fun v => (prevRel s v p).map (·.relv)))
+    s!"{optNatS a.lastP} {showItems a} {a.unfilled} {if eqScan then "eq" else "ne"}"
+
 def showLogPs (l : List (Option Op)) : String :=
   joinOrS "+" (l.map fun o => match o with | some op => showOp op | none => "_")
 
@@ -116,7 +140,8 @@ def stepIterOps (nvT slotsT psT peT stopT : String) : String :=
 
 /-- the kinds this step answers -/
 def handles (kind : String) : Bool :=
-  kind == "hintfill" || kind == "hintsub" || kind == "iterps" || kind == "iterops" || kind == "histpanic"
+  kind == "hintfill" || kind == "hintsub" || kind == "iterps" || kind == "iterops" || kind == "histpanic" ||
+  kind == "recycle" || kind == "histbad"
 
 def stepToks : List String → String
   | ["hintfill", nv, sl, vars, fills] => stepFill nv sl vars fills
@@ -125,6 +150,9 @@ def stepToks : List String → String
   | ["iterops", nv, sl, ps, pe, stop] => stepIterOps nv sl ps pe stop
   -- the harness reports a panic inside a valid public mutation of its history: the model never panics there
   | ["histpanic", _] => "no-panic"
+  | ["recycle", nv, sl, route, vars, p, hints] => stepRecycle nv sl route vars p hints
+  -- the harness found the real container's getters / contents off a scan after a valid mutation
+  | ["histbad", _] => "consistent"
   | _ => "bad-line"
 
 /-- one input line → one answer line -/
